@@ -76,7 +76,8 @@ class Monitor:
     def wrap(self, cls):
         mon = self
         for attr in ("parent", "children"):
-            prop = cls.__dict__[attr]
+            # the property object may live on a (private) base class of the mixin
+            prop = next(k.__dict__[attr] for k in cls.__mro__ if attr in k.__dict__)
 
             def make(prop, attr):
                 def fset(self, value):
